@@ -88,9 +88,9 @@ func genC15(t *rapid.T) c15Case {
 				nm = 0
 			}
 			for j := 0; j < nm; j++ {
-				m := c15Mut{Kind: pick(t, "mkind", "trunc", "flip", "const", "aconst", "aconst", "append"), Pos: rapid.IntRange(0, 200).Draw(t, "pos")}
+				m := c15Mut{Kind: pick(t, "mkind", "trunc", "flip", "const", "aconst", "aconst", "aconstall", "append"), Pos: rapid.IntRange(0, 200).Draw(t, "pos")}
 				m.Val = rapid.SampledFrom(c15Hostile).Draw(t, "val")
-				if m.Kind == "aconst" {
+				if m.Kind == "aconst" || m.Kind == "aconstall" {
 					m.Pos = rapid.IntRange(0, 15).Draw(t, "argword")
 				}
 				if m.Kind == "append" {
@@ -137,6 +137,17 @@ func (c c15Case) build(h c14H) []byte {
 				case "aconst":
 					if off := argOff + 4*m.Pos; off+4 <= len(rec) {
 						binary.BigEndian.PutUint32(rec[off:], m.Val)
+					}
+				case "aconstall":
+					// the hostile constant replaces the argument word and every later word that carried the same value
+					// (a count and the length of the opaque it announces, for instance)
+					if off := argOff + 4*m.Pos; off+4 <= len(rec) {
+						orig := binary.BigEndian.Uint32(rec[off:])
+						for o := off; o+4 <= len(rec); o += 4 {
+							if binary.BigEndian.Uint32(rec[o:]) == orig {
+								binary.BigEndian.PutUint32(rec[o:], m.Val)
+							}
+						}
 					}
 				case "trunc":
 					if m.Pos < len(rec) {
@@ -419,7 +430,10 @@ func c15Enumerate() []c15Case {
 			for w := 0; w < words; w++ {
 				for _, val := range vals {
 					c.Recs = append(c.Recs, c15Rec{Req: req, Muts: []c15Mut{{Kind: "aconst", Pos: w, Val: val}}})
-					if len(c.Recs) == 24 {
+					if val == 1<<26 || val == 0x7FFFFFFF {
+						c.Recs = append(c.Recs, c15Rec{Req: req, Muts: []c15Mut{{Kind: "aconstall", Pos: w, Val: val}}})
+					}
+					if len(c.Recs) >= 24 {
 						out = append(out, c)
 						c = c15Case{Sentinel: true}
 					}
